@@ -89,10 +89,25 @@ def check_alloc_guards(ctx, st):
                     from ..ranges import guard_fn_summary
                     cp = H.call_path(x)
                     if cp not in _GUARD_SUMMARIES.setdefault(crate, {}):
-                        _GUARD_SUMMARIES[crate][cp] = guard_fn_summary(g.f(crate).fn(cp))
+                        gs_ = guard_fn_summary(g.f(crate).fn(cp))
+                        if gs_ is None:
+                            from ..ranges import guard_fn_semantic
+                            from ..minieval import Mini, Unsupported, Panic
+
+                            def call_(p_, a_, crate=crate):
+                                try:
+                                    return Mini({c_: g.f(c_) for c_ in ("wow_world_messages", "wow_world_base")} if crate != "wow_login_messages" else {crate: g.f(crate)}, crate).call_fn(p_, list(a_))
+                                except (Unsupported, Panic, KeyError, TypeError, ValueError, IndexError, AttributeError, RecursionError):
+                                    return None
+                            gs_ = guard_fn_semantic(g.f(crate).fn(cp), call_)
+                        _GUARD_SUMMARIES[crate][cp] = gs_
                     gs = _GUARD_SUMMARIES[crate][cp]
                     if gs is not None and gs[0] < len(H.call_args(x)):
-                        stmts.append(["guard", None, H.call_args(x)[gs[0]]])
+                        ge = H.call_args(x)[gs[0]]
+                        if len(gs) == 3 and gs[2] < len(H.call_args(x)):
+                            # guard(count, K, MAX): the guarded quantity is count * K
+                            ge = ["bin", "", "Mul", "u64", ge, H.call_args(x)[gs[2]]]
+                        stmts.append(["guard", None, ge])
             for stt in stmts:
                 n += 1
                 e = H.strip(stt[2])
